@@ -137,6 +137,9 @@ func init() {
 			}
 			x.st.Evaluations += 8
 		}
+		// (2b) the same question asked through every two-string function, for the code points the sources special-case,
+		// at the needle positions and haystack lengths that select the different search strategies
+		x.specialPairContexts(allSS)
 		// (3) ToUpperLower / FoldMap against the toolchain
 		var later []func() // findings without an API-level input are reported after those with one
 		defer func() {
